@@ -69,6 +69,9 @@ def menu():
         add(kind, st, items=[_item("x", "list[int]", D2), _item("y", None)])
         add(kind, "gn", items=[_item("x", None, D3)])
         add(kind, "n", items=[_item("x", "int", D1, default="3")])
+        # a default (written, or taken from the signature) followed by an item that has none: nothing may carry over to the next item
+        add(kind, "n", items=[_item("y", "str", D1, default="'b'"), _item("x", None)])
+        add(kind, "gn", items=[_item("y", None), _item("x", None, D2)])
     add("attributes", "gns", items=[_item("a", "int")])
     add("attributes", "gn", items=[_item("a", None, D2), _item("b", "str", D3)])
     for kind in ("returns", "yields", "receives"):
